@@ -132,9 +132,14 @@ public:
 			dispatcher->appendListener(event, listener)
 		};
 
-		{
+		try {
 			std::unique_lock<typename DispatcherType::Mutex> lock(itemListMutex);
 			itemList.push_back(item);
+		}
+		catch(...) {
+			// The listener could not be recorded, so nobody would ever remove it: take it out again.
+			dispatcher->removeListener(item.event, item.handle);
+			throw;
 		}
 
 		return item.handle;
@@ -151,9 +156,14 @@ public:
 			dispatcher->prependListener(event, listener)
 		};
 		
-		{
+		try {
 			std::unique_lock<typename DispatcherType::Mutex> lock(itemListMutex);
 			itemList.push_back(item);
+		}
+		catch(...) {
+			// The listener could not be recorded, so nobody would ever remove it: take it out again.
+			dispatcher->removeListener(item.event, item.handle);
+			throw;
 		}
 		
 		return item.handle;
@@ -171,9 +181,14 @@ public:
 			dispatcher->insertListener(event, listener, before)
 		};
 		
-		{
+		try {
 			std::unique_lock<typename DispatcherType::Mutex> lock(itemListMutex);
 			itemList.push_back(item);
+		}
+		catch(...) {
+			// The listener could not be recorded, so nobody would ever remove it: take it out again.
+			dispatcher->removeListener(item.event, item.handle);
+			throw;
 		}
 		
 		return item.handle;
@@ -276,9 +291,14 @@ public:
 			callbackList->append(callback)
 		};
 
-		{
+		try {
 			std::unique_lock<typename CallbackListType::Mutex> lock(itemListMutex);
 			itemList.push_back(item);
+		}
+		catch(...) {
+			// The callback could not be recorded, so nobody would ever remove it: take it out again.
+			callbackList->remove(item.handle);
+			throw;
 		}
 
 		return item.handle;
@@ -293,9 +313,14 @@ public:
 			callbackList->prepend(callback)
 		};
 
-		{
+		try {
 			std::unique_lock<typename CallbackListType::Mutex> lock(itemListMutex);
 			itemList.push_back(item);
+		}
+		catch(...) {
+			// The callback could not be recorded, so nobody would ever remove it: take it out again.
+			callbackList->remove(item.handle);
+			throw;
 		}
 
 		return item.handle;
@@ -311,9 +336,14 @@ public:
 			callbackList->insert(callback, before)
 		};
 
-		{
+		try {
 			std::unique_lock<typename CallbackListType::Mutex> lock(itemListMutex);
 			itemList.push_back(item);
+		}
+		catch(...) {
+			// The callback could not be recorded, so nobody would ever remove it: take it out again.
+			callbackList->remove(item.handle);
+			throw;
 		}
 
 		return item.handle;
